@@ -79,4 +79,8 @@ class TaskHandler:
             for key in dict(self._pending).keys():
                 get = self._pending.get(key)
                 if get is not None:
-                    self._pending[key].result(10)
+                    try:
+                        get.result(10)
+                    except Exception:
+                        # flush waits for the tasks, it does not care if they worked (the task callback logs that)
+                        logging.exception("Task %s did not complete cleanly during flush", key)
